@@ -31,7 +31,7 @@ RULE = ('cases = histories: (target operator, nrows, buffersize, cache, source f
 ASSUMPTIONS = ['reference counting plus gc.collect() reaches quiescence', 'the harness drops exception objects and tracebacks before the quiescence check']
 TARGETS = ['sort', 'join', 'complement', 'distinct', 'aggregate', 'pivot', 'mergesort', 'fromdicts']
 REQUIRED = (['target:' + t for t in TARGETS] + ['files-created', 'files-removed', 'iterator-outlived-view', 'abandoned-mid-iteration',
-            'source-failed-midway', 'chunk-write-failed-midway', 'complete-pass-after-a-failed-pass', 'pass-from-file-cache', 'cache-cleared-under-live-iterator', 'three-iterators', 'view-released-first', 'cache-off', 'quiescent-points-checked'])
+            'source-failed-midway', 'chunk-write-failed-midway', 'complete-pass-after-a-failed-pass', 'pass-from-file-cache', 'cache-cleared-under-live-iterator', 'three-iterators', 'view-released-first', 'cache-off', 'quiescent-points-checked', 'descending-sort'])
 EXHAUSTIVE = {'quick': False, 'thorough': False}   # the enumerated families are complete within their bounds, but a seeded random family is judged too
 
 _audit = None
@@ -113,6 +113,10 @@ def cases(ctx):
                                     continue
                                 yield {'target': 'sort', 'n': n, 'buffersize': bs, 'cache': cache, 'fail': None, 'failpass': None,
                                        'steps': _histories(m, ks, family, release)}
+                                if m <= 2 and release != 'mixed':
+                                    # descending sorts merge their chunks (first pass and cache-served passes) through other code
+                                    yield {'target': 'sort', 'n': n, 'buffersize': bs, 'cache': cache, 'fail': None, 'failpass': None,
+                                           'reverse': True, 'steps': _histories(m, ks, family, release)}
                 # late start: A is created before any cache exists but advanced only after B has filled the cache
                 # and C (served from that cache) is part-way; A's fresh pass (or an explicit clearcache) replaces
                 # the cache under C, which must still deliver everything
@@ -205,7 +209,8 @@ def cases(ctx):
                 viewdropped = True
         fail = rng.choice([None, None, None] + list(range(0, n + 2)))
         yield {'target': tgt, 'n': n, 'buffersize': None if tgt == 'fromdicts' else rng.randint(1, n + 1), 'cache': rng.random() < 0.6,
-               'fail': fail, 'failpass': rng.choice([None, 1, 2]) if fail is not None else None, 'steps': steps}
+               'fail': fail, 'failpass': rng.choice([None, 1, 2]) if fail is not None else None, 'steps': steps,
+               'reverse': tgt in ('sort', 'mergesort') and rng.random() < 0.4}
 
 
 # ---------------------------------------------------------------------------
@@ -220,8 +225,9 @@ def _build(case, rows, fail, failpass, kw):
     tgt = case['target']
     src = probes.FailingSource(rows, fail_at=fail, only_pass=failpass) if fail is not None else [list(r) for r in rows]
     other = [['k', 'w'], [1, 'x'], [2, 'y'], [2, 'z'], [4, 'q']]
+    rev = {'reverse': True} if case.get('reverse') else {}
     if tgt == 'sort':
-        return petl.sort(src, 'k', **kw)
+        return petl.sort(src, 'k', **rev, **kw)
     if tgt == 'join':
         return petl.join(src, other, key='k', **kw)
     if tgt == 'complement':
@@ -233,7 +239,7 @@ def _build(case, rows, fail, failpass, kw):
     if tgt == 'pivot':
         return petl.pivot(src, 'k', 'v', 'id', len, **kw)
     if tgt == 'mergesort':
-        return petl.mergesort(src, other, key='k', **kw)
+        return petl.mergesort(src, other, key='k', **rev, **kw)
     raise KeyError(tgt)
 
 
@@ -255,6 +261,8 @@ def judge(case, ctx):
         rows[1 + unpicklable][1] = (lambda: None)         # cannot be pickled: the chunk write fails at this row
         ctx.seen('chunk-write-failed-midway')
     kw = {}
+    if case.get('reverse'):
+        ctx.seen('descending-sort')
     if tgt != 'fromdicts':
         kw = {'buffersize': case['buffersize'], 'cache': case['cache']}
         if not case['cache']:
